@@ -28,7 +28,14 @@ pub fn run_stream(
     judge: &dyn Fn(&Params, &Out, &RefOut, &mut Judgements) -> usize,
 ) -> StreamStats {
     let mut st = StreamStats { steps: 0, judged: 0, skipped: 0, ok: true };
-    let mut inst = Inst::new(p);
+    let mut inst = match Inst::try_new(p) {
+        Ok(i) => i,
+        Err(_) => {
+            // a constructor that rejects or panics on valid parameters is C11's claim
+            rep.count("skipped.constructor_failed(see C11)");
+            return st;
+        }
+    };
     // Every third stream runs on a *recycled* instance: it first consumes an unrelated prefix (the
     // head of this stream, rescaled and reversed) and is then reset(). The properties count t
     // "since construction/reset", so the outputs must be those of a fresh instance.
@@ -122,7 +129,7 @@ pub fn run_stream(
             // one witness per stream is enough; keep counting cheaply by stopping this stream
             return st;
         }
-        if rep.wants_sample() && t == inputs.len().min(n + 2) {
+        if rep.wants_sample() && t == inputs.len().min(n.saturating_add(2)) {
             rep.sample(json!({"indicator": p.label(), "t": t, "last_input": x.to_json(), "observed": out.to_json(),
                 "reference": js.iter().map(|q| format!("{}={:e} tol={:e}", q.name, q.reference.to_f64(), q.tol)).collect::<Vec<_>>() }));
         }
